@@ -118,7 +118,9 @@ func (l *limitListener) decrement() {
 
 	l.counter.decrement()
 
-	l.counterCond.Signal()
+	// Wake up all waiting accepts, since the counter may be shared between
+	// several listeners and may allow more than one of them to proceed.
+	l.counterCond.Broadcast()
 }
 
 // Close closes the underlying listener and signals to all goroutines waiting
